@@ -63,6 +63,7 @@ func cmdCheck(args []string) int {
 	verif := fs.String("verif", "/verif", "verification directory")
 	prop := fs.String("prop", "", "property id")
 	tier := fs.String("tier", "quick", "quick | thorough")
+	list := fs.Bool("list", false, "print the name of every claimed obligation (CLAIMED <name>)")
 	seed := fs.Int("seed", 0, "seed")
 	_ = fs.Parse(args)
 	if s := os.Getenv("VERIF_SEED"); s != "" {
@@ -610,6 +611,9 @@ func cmdCheck(args []string) int {
 			continue
 		}
 		claimed++
+		if *list {
+			fmt.Printf("CLAIMED %s\n", n)
+		}
 		if len(a.bad) == 0 {
 			discharged++
 			if len(samples) < 6 {
